@@ -72,6 +72,41 @@ package pz;
 option features.field_presence = IMPLICIT;
 message Z { int32 v = 1; string w = 2 [features.field_presence = EXPLICIT]; }
 `},
+	// custom options on every kind of element (the clone of a parse result has to re-create the
+	// option -> AST node index position by position, one element kind at a time)
+	{"o.proto": `syntax = "proto2";
+package po;
+import "google/protobuf/descriptor.proto";
+option (fo) = "file";
+extend google.protobuf.FileOptions { optional string fo = 50101; }
+extend google.protobuf.MessageOptions { optional string mo = 50102; }
+extend google.protobuf.FieldOptions { optional string fdo = 50103; }
+extend google.protobuf.OneofOptions { optional string oo = 50104; }
+extend google.protobuf.ExtensionRangeOptions { optional string ero = 50105; }
+extend google.protobuf.EnumOptions { optional string eo = 50106; }
+extend google.protobuf.EnumValueOptions { optional string evo = 50107; }
+extend google.protobuf.ServiceOptions { optional string so = 50108; }
+extend google.protobuf.MethodOptions { optional string mto = 50109; }
+message A {
+  option (mo) = "msg";
+  optional int32 f = 1 [(fdo) = "field", deprecated = true];
+  oneof pick { option (oo) = "oneof"; int32 p = 2 [(fdo) = "in-oneof"]; string q = 3; }
+  extensions 100 to 199 [(ero) = "range"];
+  message N {
+    option (mo) = "nested";
+    oneof inner { option (oo) = "nested-oneof"; bool b = 1; }
+    enum NE { option (eo) = "nested-enum"; NE_A = 0 [(evo) = "nested-val"]; }
+    optional group Grp = 2 [(fdo) = "group"] { option (mo) = "group-msg"; optional int32 g = 1; }
+  }
+  reserved 50 to 60;
+}
+extend A { optional string ext = 100 [(fdo) = "ext"]; }
+enum E { option (eo) = "enum"; option allow_alias = true; E_A = 0 [(evo) = "val"]; E_B = 0; reserved 5 to 7; }
+service Svc {
+  option (so) = "svc";
+  rpc Call(A) returns (A) { option (mto) = "method"; option idempotency_level = IDEMPOTENT; }
+}
+`},
 }
 
 const (
